@@ -52,20 +52,38 @@ def run(rep, tier):
     rep.undecided = "diffusion (every entropy byte influences all later output) and one-wayness of the re-key"
     cfgs = [repo.Config("c64")] if tier == "quick" else [repo.Config(b) for b in ("c64", "asm", "c32", "direct")]
     builds = repo.configure_many(cfgs)
+    shape_probes = []
     for b in builds:
         lr = repo.lower(b, group="lib", level="O0", langs=("c",), scev=True)
         m = ir.Module.load(lr.json)
         rep.configs.append(b.cfg.name)
         rep.units.update(lr.units)
         rule_rekey_last(rep, m, b.cfg.name)
-        rule_rekey_shape(rep, m, b.cfg.name)
-        rule_inputs(rep, m, b.cfg.name)
-        rule_reseed_limit(rep, m, b.cfg.name)
-        # status propagation is judged on each public function with its file-local helpers inlined
+        # the shape clause of the re-key step is tried on a scratch report: the behaviour is decided by D1r (semantic);
+        # a shape finding that D1r does not confirm is "unproved"
+        from . import report as _report
+        probe = _report.Report("C15", tier)
+        probe._known = []
+        rule_rekey_shape(probe, m, b.cfg.name)
+        shape_probes.append((b.cfg.name, probe))
+        # data sources, reseed limit and status propagation are judged on each public function with its file-local
+        # helpers inlined
         lri = repo.lower(b, group="lib", level="O0", langs=("c",), scev=True, inline_internal=True)
-        rule_status(rep, ir.Module.load(lri.json), b.cfg.name)
+        mi = ir.Module.load(lri.json)
+        rule_inputs(rep, mi, b.cfg.name)
+        rule_reseed_limit(rep, mi, b.cfg.name)
+        rule_status(rep, mi, b.cfg.name)
         rule_mixer(rep, m, b.cfg.name)
+    nv = len(rep.violations)
     rule_rekey_semantic(rep, tier)
+    sem_bad = len(rep.violations) > nv
+    rep.rule("C15.D1s", "re-key = pad, then (40-8)/8 iterations of zero-the-rate followed by a 12-round permutation")
+    for cname, probe in shape_probes:
+        if probe.violations and not sem_bad:
+            rep.unproved_item("C15.D1s", "%s: loop shape of the re-key step not recognised (%s); D1r decides" % (
+                cname, probe.violations[0]["message"][:120]))
+            probe.violations = []
+        rep.merge(probe.export())
     n = len(builds)
     rep.floor("C15.D1", 6 * n)
     rep.floor("C15.D1s", 2 * n)      # shape clause; the behaviour of the re-key step is decided by D1r
